@@ -326,6 +326,18 @@ def run_tree_case(ctx, model, scico, case, oracle, stream):
     else:
         ctx.count("prox:not runnable in the driver (plan oracle only)")
 
+    # ---- exact-arithmetic stream: real dyadic data, leaves whose value and prox involve only additions, subtractions,
+    # comparisons and products by dyadic factors (L1Norm soft threshold, NonNegativeIndicator clip, ZeroFunctional): the same
+    # IEEE operations are performed by code and model, so value and prox must agree to the last bit ----
+    kinds_ = {d["kind"] for d in case["leaves"]}
+    if (not cplx) and kinds_ <= {"l1", "nonneg", "zero"} and "Q" not in G.tree_sig(case["t"]) and "loss-nonpos" not in info.patterns:
+        ctx.count("tree:exact (bit-for-bit) comparison")
+        if ie[0] == "ok" and me[0] == "ok" and np.isfinite(ie[1]) and ie[1] != me[1]:
+            ctx.disagree("tree.exact.eval", case, repr(ie[1]), repr(me[1]), oracle=oracle, note="value differs in the last bits on exactly representable data")
+        if mp is not None and ip[0] == "ok" and mpv[0] == "ok" and not np.array_equal(np.asarray(ip[1], dtype=float), np.asarray(mpv[1], dtype=float)):
+            ctx.disagree("tree.exact.prox", dict(case, model_prox=np.asarray(mpv[1]).tolist()), np.asarray(ip[1]).tolist(), np.asarray(mpv[1]).tolist(),
+                         oracle=oracle, note="prox differs in the last bits on exactly representable data")
+
     # ---- plan oracle: prox of the wrapper = prox of the bases at the transformed arguments ----
     pl = _model_field(r, "plan")
     if pl is not None and pl[0] == "ok" and ip[0] == "ok":
